@@ -50,30 +50,30 @@ GEN_TXT = ("scenario = random DAG (2-9 tasks over nested packages, all kinds, pe
 
 reg("C01", GEN_TXT + "distinct = distinct (scenario shape, abstract event-sequence digest); non-trivial = "
     "the invocation started at least one task that has a transitive dependency executed in the same invocation",
-    quick_count=1200)
+    quick_count=5000)
 reg("C02", GEN_TXT + "distinct = distinct (shape, digest); non-trivial = the model's needed set is non-empty "
-    "(progress total, executed multiset and recorded rows are compared with it)", quick_count=1500)
+    "(progress total, executed multiset and recorded rows are compared with it)", quick_count=4000)
 reg("C03", GEN_TXT + "distinct = distinct (shape, digest); non-trivial = at least one needed task fails "
     "(exit code / signal / fork failure / exec failure) so the fail/skip closure is exercised",
-    quick_count=1200)
+    quick_count=6000)
 reg("C04", GEN_TXT + "distinct = distinct (shape, digest); non-trivial = at least one task process was "
-    "spawned (slot and exclusivity rules evaluated at every spawn/exit)", quick_count=4000)
+    "spawned (slot and exclusivity rules evaluated at every spawn/exit)", quick_count=8000)
 reg("C09", GEN_TXT + "child exits land at arbitrary monitoring instants (LINE/CALL/PY_START/C_RETURN of "
     "conductor.* and subprocess.Popen); distinct = distinct (shape, digest); non-trivial = at least one "
-    "task process ran to completion under the interposed kernel", quick_count=1500)
+    "task process ran to completion under the interposed kernel", quick_count=6000)
 reg("C05", "scenario = 2-5 tasks (mostly experiments) + history interleaving git operations (commit, branch, "
     "checkout incl. detached, merge, dirty, init of a foreign repository) with cond run (default/--again/"
     "--at-least SYM/--this-commit), cond where, config toggles of disable_git and archive/restore of foreign "
     "rows; distinct = distinct (shape, digest); non-trivial = a run or where whose outcome depends on the "
-    "selection rule (model plan non-empty, or flag validation exercised)", quick_count=3000)
+    "selection rule (model plan non-empty, or flag validation exercised)", quick_count=5000)
 reg("C07", GEN_TXT + "args/options of every primitive type, nested packages, invocation from drawn working "
     "directories, conductor.lib evaluated inside the stub child under its environment; distinct = distinct "
     "(shape, digest); non-trivial = at least one task process was spawned and its argv/cwd/env compared with "
-    "the model", quick_count=1500)
+    "the model", quick_count=6000)
 reg("C08", GEN_TXT + "histories of runs that succeed, fail, are aborted by SIGINT/SIGTERM or killed, with "
     "clock gaps of 0 s, sub-second, backwards steps and restores of archives whose timestamps lie in the "
     "future; distinct = distinct (shape, digest); non-trivial = an experiment was spawned (freshness checked) "
-    "or an operation ran while recorded versions existed (tree hashes compared)", quick_count=1200)
+    "or an operation ran while recorded versions existed (tree hashes compared)", quick_count=2500)
 
 
 # ---------------------------------------------------------------------------------------------
@@ -137,7 +137,7 @@ PROPS["C06"] = C06Prop(
     "directory, produced by an execution that exited 0, with HEAD's commit and dirty flag' is evaluated on disk. "
     "evaluations = scenarios + kill points; distinct = distinct (shape, digest); non-trivial = a kill actually "
     "fired or new rows appeared",
-    quick_count=320, quick_budget=90.0)
+    quick_count=480, quick_budget=90.0)
 
 
 class C12Prop(EnumProp):
@@ -178,7 +178,7 @@ PROPS["C12"] = C12Prop(
     "forked copy. Oracle: not successful => rows and every recorded tree unchanged; successful => every archive "
     "row recorded with its directory. evaluations = scenarios + kill points; non-trivial = a restore was executed "
     "(distinct by outcome x corruption x prior state) or a kill fired",
-    quick_count=320, quick_budget=90.0)
+    quick_count=480, quick_budget=90.0)
 
 
 class C16Prop(EnumProp):
@@ -228,14 +228,14 @@ reg("C10", "scenario = 1-4 tasks (mostly experiments, args/options of every prim
     "Oracle: stdout.log / stderr.log byte-equal to the scripted streams; in teed mode the bytes between the "
     "task's status lines on Conductor's own stdout, and the prefix of its stderr, equal them too; args.json / "
     "options.json present iff non-empty and decoding to the declared values. distinct = distinct (shape, digest); "
-    "non-trivial = an experiment ran to completion and its logs were compared", quick_count=700, quick_budget=80.0)
+    "non-trivial = an experiment ran to completion and its logs were compared", quick_count=3500, quick_budget=80.0)
 reg("C11", "scenario = nested packages with experiments and non-archivable tasks in between + 1-4 runs (several "
     "versions per task, arbitrary file trees: nested directories, empty directories, files of 0 B..70 kB, "
     "look-alike *.task.N directories inside outputs, symbolic links) + cond archive [T] [--latest] [-o] (real tar) "
     "+ clean / fresh cond-out + cond restore; oracle: rows inside the archive and rows gained by the restore == "
     "the documented selection, identical ids / commit / dirty flag, each restored tree (names, types, contents, "
     "link targets) == the source tree at archive time, source project untouched by archive. distinct = distinct "
-    "(shape, digest); non-trivial = an archive with >= 1 version was created or round-tripped", quick_count=600)
+    "(shape, digest); non-trivial = an archive with >= 1 version was created or round-tripped", quick_count=2000)
 reg("C13", "scenario = project + runs that succeed / fail / are aborted by a signal / killed, archive + restore "
     "(also killed midway or with a missing member, leaving staging leftovers), manual additions (stray files, "
     "plain directories, unrecorded look-alike <name>.task.<n> directories at several depths, look-alikes nested "
@@ -243,12 +243,12 @@ reg("C13", "scenario = project + runs that succeed / fail / are aborted by a sig
     "look-alikes, a symbolic link named like a version), then cond gc [-n] [-v]; oracle: deletion set computed "
     "independently from the pre-gc tree and the index == disk diff (everything else byte-identical, nothing "
     "outside touched) == printed list. distinct = distinct (shape, digest); non-trivial = a gc was executed",
-    quick_count=800)
+    quick_count=3500)
 reg("C18", GEN_TXT + "graphs always contain combine tasks over dependencies of every kind (experiment, command, "
     "group, combine) in nested packages; histories re-run with --again so new versions appear; an unrelated file "
     "or directory is sometimes planted where a link must go. Oracle: every entry resolves to the directory the "
     "dependency wrote / had selected in this invocation; planted entries make the run fail and stay untouched. "
-    "distinct = distinct (shape, digest); non-trivial = a combine step was executed", quick_count=1200)
+    "distinct = distinct (shape, digest); non-trivial = a combine step was executed", quick_count=6000)
 
 
 class C17Prop(Prop):
@@ -278,4 +278,4 @@ PROPS["C17"] = C17Prop(
     "without COND, cond-out, a package directory inside cond-out, a task output directory) - and exit status, "
     "resulting cond-out (rows + trees) and printed locations (resolved against the respective cwd) are compared. "
     "distinct = distinct (shape, digest); non-trivial = a command was compared from a non-root directory",
-    quick_count=700)
+    quick_count=2500)
